@@ -42,13 +42,14 @@ CLAIMS = {
          "Tie/oracle: perturbed Root fields, loader kind/store, byte-level damage of the top node judged by an independent decoder.", "5 C19"),
 }
 CLAIMS.update({
+ "C06": ("Theorems (generic in key/value types): Mast.diff on any two reachable trees (any contents incl. empty/emptied or a nil old tree, any heights, any residency mix, related or unrelated) terminates within its own step budget and its entry events are exactly the merge-difference of the two sorted listings; that merge-difference reports, for every key, exactly the event the two maps call for (added / removed / changed with old and new values, nothing on agreement), in strictly ascending key order hence once each; a stored name denotes one node (sto_fun) so skipping equal links is sound. "
+         "Partial: the hypotheses (canonical trees, consistently named links) are proved invariant for single-tree persist/reload cycles and persist-free multi-tree histories, not yet for arbitrary multi-store worlds; callback / early-stop / failing-callback / cursor interfaces are derived from the one event list in World.step and compared with the implementation. Tie: diff histories incl. tall trees, unrelated stores, empty and emptied sides, diffstop/difffail/diffcur; dictionary-difference oracle.", "5 C06"),
  "C12": ("Theorems: over histories a failing call leaves every tree, captured root, store and cursor of the world unchanged, read-only calls never change it, only MakeRoot writes to a store; trace order: in Insert and Delete every event that can fail (loads, comparisons, the first layer callback) precedes the commit point, read-only calls never commit, with a total layer function Insert never errs after its commit; C12_delete_refuted: the full statement is false of the state installed at the commit when the shrink loop's load fails (known finding D13, with the grow-loop callback counterpart). "
          "Partial: in-place mutation before the commit and callback faults are outside the value model and are decided by the fault-sweep engine (a fault at every Load / KeyCompare / Marshal call of every operation, and pairs; post-fault contents/size/height read through a fault-free view; retry).", "5 C12"),
  "C16": ("Theorems (unconditional, on trees of any shape, residency mix and outcome, generic in key type): loads of Get <= h+1, Insert <= 2(h+1), Delete <= 2(h+1) when the height is kept, Clone <= 1, split/merge <= level+1 each, LoadMast <= 1; no operation other than persist emits a Store. "
          "Partial: the shrinking Delete and cursor steps are bounded by the oracle only. Tie: the implementation's loads per call must not exceed the model's (one-sided, caches off) and the per-operation oracle bounds on recorded Load calls.", "5 C16"),
 })
 PENDING = {
- "C06": "theorems about the diff stack machine still being proved in this round; correspondence and dictionary-difference oracle exist and run clean",
  "C07": "theorems about link events still being proved in this round; reachable-set oracle and correspondence exist and run clean",
  "C11": "model-level race-freedom theorems still being written; the -race engine and alone-vs-together comparison exist and run clean",
 }
